@@ -27,6 +27,9 @@ __definition_node_ids = set()
 __sort_lookup = {}
 # Stores the symbols of functions with parameters (not usable as variables)
 __function_symbols = set()
+# Stores, for symbols bound by let/forall/exists, the ids of the nodes in
+# the scope of the binding
+__bound_scopes = {}
 # Stores indices that should not be replaced by constants
 __indices = set()
 # Caches calls to get_sort
@@ -47,6 +50,7 @@ def collect_information(exprs):  # noqa: C901
     global __definition_node_ids
     global __sort_lookup
     global __function_symbols
+    global __bound_scopes
     global __indices
     global __datatypes_constants
     global __datatypes_constructors
@@ -174,6 +178,8 @@ def collect_information(exprs):  # noqa: C901
                 if sym.is_leaf():
                     __sort_lookup[sym.data] = get_sort(term)
                     __definition_node_ids.add(sym.id)
+                    __bound_scopes.setdefault(sym.data, set()).update(
+                        n.id for n in nodes.dfs(node[2:]))
         # Determine sort of symbols introduced by quantifiers
         if (is_operator_app(node, 'exists')
                 or is_operator_app(node, 'forall')) and len(node) > 1:
@@ -184,6 +190,8 @@ def collect_information(exprs):  # noqa: C901
                 if sym.is_leaf():
                     __sort_lookup[sym.data] = term
                     __definition_node_ids.add(sym.id)
+                    __bound_scopes.setdefault(sym.data, set()).update(
+                        n.id for n in nodes.dfs(node[2:]))
 
 
 def get_bound_symbols(node):
@@ -226,6 +234,7 @@ def reset_information():
     global __definition_node_ids
     global __sort_lookup
     global __function_symbols
+    global __bound_scopes
     global __indices
     global __get_sort_cache
     global __datatypes_constants
@@ -236,6 +245,7 @@ def reset_information():
     __definition_node_ids = set()
     __sort_lookup = {}
     __function_symbols = set()
+    __bound_scopes = {}
     __indices = set()
     __get_sort_cache = {}
     __datatypes_constants = {}
@@ -246,15 +256,20 @@ def reset_information():
 # General utilities
 
 
-def get_variables_with_sort(var_sort):
+def get_variables_with_sort(var_sort, node=None):
     """Return all variables with the sort ``var_sort``.
+
+    If ``node`` is given, symbols bound by ``let``, ``forall`` or ``exists``
+    are only returned if ``node`` is in the scope of their binding.
 
     Requires that global information has been populated via
     ``collect_information``.
     """
     return [
         v for v in __sort_lookup
-        if __sort_lookup[v] == var_sort and v not in __function_symbols
+        if __sort_lookup[v] == var_sort and v not in __function_symbols and (
+            node is None or v not in __bound_scopes
+            or node.id in __bound_scopes[v])
     ]
 
 
